@@ -124,7 +124,7 @@ def instance(cls, env):
 
 OPERAND_SLOTS = ["arith_left", "arith_right", "cmp_left", "cmp_right", "bool_right", "not", "neg", "in_term", "in_elem", "between_term", "between_lo",
                  "fn_arg", "case_when", "case_then", "case_else", "tuple_elem", "array_elem", "isnull", "where_root", "having_root", "on_root",
-                 "win_partition", "win_order", "select_arith", "select_fn_arg", "insert_value", "insert_row_last", "update_set_value", "orderby_expr", "groupby_expr", "conflict_target", "values_fn_arg", "attz_field", "extract_field", "cast_arg", "bool_left", "bool_or_left", "period_term", "period_bound", "like_pattern", "json_operand"]
+                 "win_partition", "win_order", "select_arith", "select_fn_arg", "insert_value", "insert_row_last", "update_set_value", "orderby_expr", "groupby_expr", "conflict_target", "values_fn_arg", "attz_field", "extract_field", "cast_arg", "bool_left", "bool_or_left", "period_term", "period_bound", "like_pattern", "json_operand", "update_orderby"]
 DEFINING = ["select", "select_last", "returning", "distinct_on"]
 # the same operand slots with the enclosing expression as a select-list item (the one clause rendered with with_alias=True), and with it as
 # an aliased select-list item: the operand's alias must not appear, the item's own alias exactly once
@@ -236,6 +236,8 @@ def statement(cls_name, pos, X, as_selectable=False):
         return base.select(fn.Extract(DatePart.year, X))
     elif pos == "cast_arg":
         return base.select(fn.Cast(X, "INT"))
+    elif pos == "update_orderby":
+        return Q.update(t).set(d, 1).where(c == 1).orderby(X).limit(3)  # rendered by MySQL (and SQLite / PostgreSQL builders), ignored by the others
     elif pos == "bool_left":
         w = X & (d == 1)
     elif pos == "bool_or_left":
@@ -323,6 +325,11 @@ def check_cell(tcls, cls_name, pos, via, mode="ctx"):
         return ("skip", "n/a")
     try:
         s0, s1 = render(q0, cls_name, mode), render(q1, cls_name, mode)
+    except (NameError, AttributeError, KeyError, IndexError) as e:
+        if tcls.__name__ in SELECTABLES:
+            return ("skip", "render:" + type(e).__name__)  # e.g. query + field builds a UNION with a field (documented operator overloading)
+        # a term that cannot be rendered at all emits no alias either; these exception types are programming errors, never the library's way of rejecting
+        return ("viol", "render_raises:" + type(e).__name__, "%s in %s: rendering raised %r" % (tcls.__name__, pos, e))
     except Exception as e:
         return ("skip", "render:" + type(e).__name__)
     t0, t1 = lex.lex(s0, cls_name), lex.lex(s1, cls_name)
